@@ -510,6 +510,25 @@ def extract_fn(src, selector, spec):
                 ed.rep(t.start, toks[k + 8].end, 'vx_iter_cloned(&%s)' % t.text)
                 k += 9
                 continue
+            # R12: `X.clone().into_iter().any(` -> `vx_clone_into_iter_any(&X, ` (same idea as R11 for a
+            # generic `IntoIterator + Clone` source)
+            if t.kind == 'ident' and toks[k + 1].text == '.' and toks[k + 2].text == 'clone' and \
+               toks[k + 3].text == '(' and toks[k + 4].text == ')' and toks[k + 5].text == '.' and \
+               toks[k + 6].text == 'into_iter' and toks[k + 7].text == '(' and toks[k + 8].text == ')' and \
+               toks[k + 9].text == '.' and toks[k + 10].text == 'any' and toks[k + 11].text == '(' and \
+               not (toks[k - 1].kind == 'punct' and toks[k - 1].text in ('.', '::')):
+                ed.rep(t.start, toks[k + 11].end, 'vx_clone_into_iter_any(&%s, ' % t.text)
+                k += 12
+                continue
+            # R11: `X.iter().any(` -> `vx_iter_any(&X, ` (external_body wrapper, body = the original
+            # expression; the predicate closure stays in the text and is verified)
+            if t.kind == 'ident' and toks[k + 1].text == '.' and toks[k + 2].text == 'iter' and \
+               toks[k + 3].text == '(' and toks[k + 4].text == ')' and toks[k + 5].text == '.' and \
+               toks[k + 6].text == 'any' and toks[k + 7].text == '(' and \
+               not (toks[k - 1].kind == 'punct' and toks[k - 1].text in ('.', '::')):
+                ed.rep(t.start, toks[k + 7].end, 'vx_iter_any(&%s, ' % t.text)
+                k += 8
+                continue
             if t.kind == 'ident' and t.text in ('write', 'writeln') and toks[k + 1].text == '!' and toks[k + 2].kind == 'open':
                 c = match[k + 2]
                 if toks[c + 1].text == '?' and toks[c + 2].text == ';':
@@ -531,10 +550,14 @@ def extract_fn(src, selector, spec):
         if anchor == 'fn.start':
             ed.ins(toks[body].end, text, prio=5)
         elif anchor == 'fn.end':
-            if toks[end - 1].kind == 'close' and toks[end - 1].text == '}':
+            if toks[end - 1].kind == 'punct' and toks[end - 1].text == ';':
+                # the body ends with a statement: the hint goes right before the closing brace
+                ed.ins(toks[end].start, text, prio=5)
+            elif toks[end - 1].kind == 'close' and toks[end - 1].text == '}':
                 raise Inconclusive('%s: fn.end anchor needs a simple tail expression' % selector)
-            s = _stmt_start(src, end - 1, lo)
-            ed.ins(toks[s].start, text, prio=5)
+            else:
+                s = _stmt_start(src, end - 1, lo)
+                ed.ins(toks[s].start, text, prio=5)
         elif m:
             n = int(m.group(1))
             if n > len(loops):
